@@ -1177,4 +1177,10 @@ def r6_9(ctx):
     ctx.floor(n, 4, "Color constructions in Color.parse")
 
 
-RULES = [r6_1, r6_2, r6_3, r6_4, r6_7, r6_5, r6_6, r6_8, r6_9]
+def r6_10(ctx):
+    from .c04 import r4_5
+    from .common import borrow
+    borrow(ctx, r4_5, "R4.5", "R6.10", " [normalising a definition does not change what it parses to: case is folded in the attribute / colour words only, never in a link URL]")
+
+
+RULES = [r6_1, r6_2, r6_3, r6_4, r6_7, r6_5, r6_6, r6_8, r6_9, r6_10]
